@@ -2,7 +2,7 @@
 GENERATED import list — regenerate with `python3 tools/gen_all_imports.py` (from /verif); do not edit the
 imports by hand. `python3 tools/gen_all_imports.py --check` fails if a module on disk is not imported here.
 
-Imports every module of the libraries QmcModel, QmcProofs, QmcProps (200 modules), so that
+Imports every module of the libraries QmcModel, QmcProofs, QmcProps (218 modules), so that
 `lake build QmcAll` certifies that the whole development type-checks in ONE environment: no two modules
 declare the same name (Lean: "environment already contains …"). See design_notes/Cleanup.md.
 
@@ -38,6 +38,7 @@ import QmcModel.Loop
 import QmcModel.Pool
 import QmcModel.ProbTree
 import QmcModel.Proto
+import QmcModel.QmcCtor
 import QmcModel.Rand
 import QmcModel.Rvb
 import QmcModel.RvbRegion
@@ -52,6 +53,9 @@ import QmcModel.Worldline
 import QmcProofs.Autocorr
 import QmcProofs.AutocorrFFT
 import QmcProofs.BondContainer
+import QmcProofs.CapstoneCount
+import QmcProofs.CapstoneLimit
+import QmcProofs.CapstoneLimitIsing
 import QmcProofs.Classical
 import QmcProofs.ClassicalErgodic
 import QmcProofs.Cluster
@@ -70,7 +74,9 @@ import QmcProofs.ConfigMarginal
 import QmcProofs.ConfigMarginalIsing
 import QmcProofs.ConfigMarginalSlots
 import QmcProofs.Convert
+import QmcProofs.ConvertOpts
 import QmcProofs.Cutoff
+import QmcProofs.CutoffUser
 import QmcProofs.Diagonal
 import QmcProofs.Dist
 import QmcProofs.FastOpsBasic
@@ -115,6 +121,8 @@ import QmcProofs.LawCluster
 import QmcProofs.LawGeneric
 import QmcProofs.LawGood
 import QmcProofs.LawHeatBath
+import QmcProofs.LawLoop
+import QmcProofs.LawLoopStep
 import QmcProofs.LawRand
 import QmcProofs.LawRandF
 import QmcProofs.LawRefresh
@@ -138,6 +146,9 @@ import QmcProofs.MarkovUnique
 import QmcProofs.PathSum
 import QmcProofs.Pool
 import QmcProofs.PureFnsAgree
+import QmcProofs.PureFnsAgree.Autocorr
+import QmcProofs.PureFnsAgree.BondContainer
+import QmcProofs.PureFnsAgree.Classical
 import QmcProofs.PureFnsAgree.Cluster
 import QmcProofs.PureFnsAgree.ClusterIsing
 import QmcProofs.PureFnsAgree.Convert
@@ -148,12 +159,15 @@ import QmcProofs.PureFnsAgree.EnergyIsing
 import QmcProofs.PureFnsAgree.HeatBath
 import QmcProofs.PureFnsAgree.HeatBathIsing
 import QmcProofs.PureFnsAgree.IsingHam
+import QmcProofs.PureFnsAgree.Loop
 import QmcProofs.PureFnsAgree.Prelude
 import QmcProofs.PureFnsAgree.RefreshGeneric
 import QmcProofs.PureFnsAgree.RefreshIsing
 import QmcProofs.PureFnsAgree.Rvb
 import QmcProofs.PureFnsAgree.Size
+import QmcProofs.PureFnsAgree.Stepper
 import QmcProofs.PureFnsAgree.Tempering
+import QmcProofs.QmcCtor
 import QmcProofs.Refinement
 import QmcProofs.RefinementBridge
 import QmcProofs.RefinementClusterExact
@@ -167,6 +181,7 @@ import QmcProofs.RvbHam
 import QmcProofs.RvbKernel
 import QmcProofs.RvbMove
 import QmcProofs.RvbRegion
+import QmcProofs.RvbRegionDerive
 import QmcProofs.RvbRegionOK
 import QmcProofs.RvbReverse
 import QmcProofs.RvbSweep
@@ -186,11 +201,13 @@ import QmcProofs.Worldline
 import QmcProofs.WorldlineIsing
 import QmcProps.C01
 import QmcProps.C01Capstone
+import QmcProps.C01Limit
 import QmcProps.C02
 import QmcProps.C03
 import QmcProps.C03Kernel
 import QmcProps.C04
 import QmcProps.C04Capstone
+import QmcProps.C04LawLoop
 import QmcProps.C04Mass
 import QmcProps.C05
 import QmcProps.C06
@@ -205,6 +222,7 @@ import QmcProps.C13
 import QmcProps.C14
 import QmcProps.C15
 import QmcProps.C16
+import QmcProps.C16Sampler
 import QmcProps.C17
 import QmcProps.C18
 import QmcProps.C19
